@@ -12,6 +12,7 @@ import BibVerif.Wire.Month
 import BibVerif.Wire.SortFields
 import BibVerif.Wire.SortBlocks
 import BibVerif.Wire.Names
+import BibVerif.Wire.Pipeline
 namespace Bib.Wire
 
 /-- every command the driver understands -/
@@ -20,6 +21,6 @@ def handlers : List (String × Handler) :=
   ++ entryOpsHandlers ++ libraryHandlers
   ++ writerHandlers ++ enclosingHandlers ++ interpolateHandlers
   ++ monthHandlers ++ fieldHandlers ++ sortBlocksHandlers
-  ++ namesHandlers
+  ++ namesHandlers ++ pipelineHandlers
 
 end Bib.Wire
